@@ -72,7 +72,7 @@ def run_shard(spec, rec):
                     arg = ('PAIRS', [(k, ls.g._val()) for k in big]) \
                         if ls.is_mapping else ('LIST', big)
                     ls.step('update' if ls.is_mapping else 'supdate', (arg,))
-            ok = ls.run(n)
+            ok = ls.run(n, p_bad=0.08)
             if h == 0 and ok:
                 rec.sample(dict(family=fam.name, kind=kind, impl=impl,
                                 sizes=sizes, via_subclass=via_sub,
